@@ -67,3 +67,77 @@ CONTRACT[K + 'set_HTMLColorResiduePalette'] = dict(
     raises=[('SequenceException', 'Not(palette_valid(colorDict))')],
     modifies=['aminoAcidColorMap'], modifies_on_raise=[],
     ensures=['self.aminoAcidColorMap == palette_of(colorDict)'])
+
+
+# ----------------------------------------------------------------------------- C20.a: rendering
+# Colour names are abstracted to ONE symbol each: the palette of the receiver maps residue a to the macro character
+# COLOUR_BASE + index(a), a code point no real character has.  The rendered text is then a sequence over characters and
+# colour symbols; its concretisation replaces each colour symbol by the colour name stored for that residue.
+from .tables import HTML_OPEN, HTML_CLOSE, HTML_SPAN, HTML_BREAK
+COLOUR_BASE = 0x200000
+
+
+def macro_palette(it):
+    import z3
+    from pyvc.values import SChar
+    return {a: SChar(z3.IntVal(COLOUR_BASE + i)) for i, a in enumerate(AA20)}
+
+
+def mk_seq_render(it, case):
+    o = mk_sequence(alphabet='aa')(it, case)
+    o.fields['aminoAcidColorMap'] = macro_palette(it)
+    return o
+
+
+mk_seq_render.inv = 'seq_inv(self)'
+
+
+def pal_at(pal, c):
+    from pyvc.speclib import ite
+    r = pal[AA20[-1]]
+    for a in reversed(AA20[:-1]):
+        r = (lambda a, r: ite(c == a, lambda: pal[a], lambda: r))(a, r)
+    return r
+
+
+def _lit(R, o, text):
+    from pyvc.speclib import And
+    return And(*[R[o + i] == ch for i, ch in enumerate(text)])
+
+
+_SPAN_LEN = len(HTML_SPAN[0]) + 1 + len(HTML_SPAN[1]) + 1 + len(HTML_SPAN[2])
+
+
+def render_off(j):
+    """offset of the block of residue j: the opening text, j spans, one space per started block of 10, one break per started block of 50"""
+    return len(HTML_OPEN) + _SPAN_LEN * j + (j + 9) // 10 + len(HTML_BREAK) * ((j + 49) // 50)
+
+
+def render_block_ok(R, j, s, pal):
+    from pyvc.speclib import And, implies, ite
+    o = render_off(j)
+    sp, br = (j % 10 == 0), (j % 50 == 0)
+    o1 = o + ite(sp, lambda: 1, lambda: 0)
+    o2 = o1 + ite(br, lambda: len(HTML_BREAK), lambda: 0)
+    a, b, c = HTML_SPAN
+    return And(implies(sp, R[o] == ' '), implies(br, _lit(R, o1, HTML_BREAK)), _lit(R, o2, a), R[o2 + len(a)] == pal_at(pal, s[j]),
+               _lit(R, o2 + len(a) + 1, b), R[o2 + len(a) + 1 + len(b)] == s[j], _lit(R, o2 + len(a) + 2 + len(b), c))
+
+
+def render_ok(R, s, k, pal, closed):
+    """R renders the first k residues of s: every residue once, in order, in a span coloured by its palette entry, a space opening
+    every block of 10 and a line break opening every block of 50; nothing else but the opening (and, if closed, closing) tag"""
+    from pyvc.speclib import And, forall, length, as_seq
+    R, s = as_seq(R), as_seq(s)
+    n = render_off(k) + (len(HTML_CLOSE) if closed else 0)
+    return And(length(R) == n, _lit(R, 0, HTML_OPEN), forall(lambda j: render_block_ok(R, j, s, pal), 0, k),
+               (_lit(R, render_off(k), HTML_CLOSE) if closed else True))
+
+
+SPEC.update(dict(render_ok=render_ok, pal_at=pal_at, render_off=render_off))
+
+CONTRACT[K + 'get_HTMLColorString'] = dict(
+    self=mk_seq_render, raises=[], modifies=[], returns='str',
+    ensures=['render_ok(result, self.seq, self.len, self.aminoAcidColorMap, True)'])
+LOOPS[K + 'get_HTMLColorString'] = {0: dict(index='k', types={'colorString': 'str'}, invariant=[
+    'count == k - 1', 'render_ok(colorString, self.seq, k, self.aminoAcidColorMap, False)'])}
